@@ -242,6 +242,11 @@ for _pid, _t in {'C07': 'a reference whose entry was removed behind the cache\'s
     CLAIMS[_pid]['text'] += ' Engine scenario (harness/scenario_test.go, real transport, real backends): ' + _t + '.'
 CLAIMS['C11']['text'] += ' Engine realclock: the Age field of an answer from the store whose entry was received with a saturating Age (real clock, any staleness allowed) is at least 2^31.'
 
+CLAIMS['C07']['text'] += (' Across exchanges (Proofs/InvalProofs.v): C07_exchange_invalidates (from any world, the exchange of an unsafe request that ends with the origin\'s non-error response '
+                          'leaves no index under the request\'s URL key: the path spawns nothing, so nothing writes after the invalidation) and C07_next_exchange (the next exchange, after any gap, for any '
+                          'understood request with that key ends in the 504 of only-if-cached or logs an origin call with exactly that request). C07_source_same_origin: sameOrigin and defaultPort regenerated from internal/helpers.go.')
+for _pid in ('C11', 'C13'):
+    CLAIMS[_pid]['text'] += ' %s_source_saturating_add: saturatingAdd regenerated from internal/freshness.go and proved equal to the model\'s on non-negative durations.' % _pid
 for _pid in ('C07', 'C19'):
     CLAIMS[_pid]['text'] += (' %s_source_invalidation: InvalidateCache and invalidateLocationHeaders (which keys are deleted, in which order, after which reads of the store, none twice) '
                              'are re-derived from internal/cacheinvalidator.go by translate/inval.go before every build and proved equal up to peq to invalidate_cache (Proofs/TieInval.v).' % _pid)
